@@ -91,7 +91,7 @@ def build_sandbox() -> None:
         "root1/é.liquid": "F07", "root1/sp ace.liquid": "F08", "root1/.hidden.liquid": "F09",
         "root2/a.liquid": "F10", "root2/d.liquid": "F11", "root2/sub/e.liquid": "F12",
         "outside/secret.liquid": "F20", "outside/a.liquid": "F21", "outside/secret": "F22", "outside/sub/b.liquid": "F23",
-        "secret.liquid": "F24", "root1x/a.liquid": "F25", "root1x/z.liquid": "F26",
+        "secret.liquid": "F24", "root1x/a.liquid": "F25", "root1x/z.liquid": "F26", "root2.bak/s.liquid": "F27", "root1-old/sub/o.liquid": "F28",
         "pkgs/vpkg22/__init__.py": "", "pkgs/vpkg22/templates/a.liquid": "F30", "pkgs/vpkg22/templates/sub/b.liquid": "F31", "pkgs/vpkg22/templates/noext": "F32",
         "pkgs/vpkg22/templates/c.txt": "F33", "pkgs/vpkg22/more/m.liquid": "F34", "pkgs/vpkg22/secret.liquid": "F35", "pkgs/vpkg22/private/p.liquid": "F36",
         "pkgs/secret.liquid": "F37",
@@ -101,6 +101,9 @@ def build_sandbox() -> None:
     links = {
         "root1/link_out.liquid": "../outside/secret.liquid", "root1/linkdir": "../outside", "root1/link_in.liquid": "sub/b.liquid", "root1/link_r2.liquid": "../root2/d.liquid",
         "root1/sub/up": "../..", "root1/abs_out.liquid": os.path.join(T, "outside/secret.liquid"), "root1/dangling.liquid": "nowhere.liquid", "root1/loop.liquid": "loop.liquid",
+        # links into sibling directories whose names merely *start with* the search directory's name
+        "root1/link_x.liquid": "../root1x/z.liquid", "root1/linkdir_x": "../root1x", "root2/link_sib.liquid": "../root2.bak/s.liquid", "root1/sub/linkdir_old": "../../root1-old/sub",
+        "root1/abs_link_x.liquid": os.path.join(T, "root1x/z.liquid"),
     }
     for rel, target in links.items():
         os.symlink(target, os.path.join(T, rel))
@@ -306,7 +309,7 @@ WARM_NAMES = ["a.liquid", "sub/b.liquid", "a", "sub/b", "both"]
 COMPONENTS = [
     "", ".", "..", "a.liquid", "a", "sub", "b.liquid", "b", "deep", "c.txt", "c", "noext", "both", "é", "sp ace", ".hidden", "d", "e", "outside", "secret.liquid", "secret",
     "root1", "root2", "root1x", "z", "linkdir", "link_out.liquid", "link_out", "link_in", "link_r2", "up", "abs_out", "dangling", "loop", "templates", "more", "m", "private", "p",
-    "vpkg22", "pkgs", "...", "~", "a.liquid.", "a.", ".liquid", "\x00", "a\x00", "a.liquid\x00.txt", "\n", "a\n", "\x7f", "<S>", "a<S>", "x" * 300, "nope", "*", "a.LIQUID",
+    "vpkg22", "pkgs", "link_x", "linkdir_x", "link_sib", "linkdir_old", "o", "...", "~", "a.liquid.", "a.", ".liquid", "\x00", "a\x00", "a.liquid\x00.txt", "\n", "a\n", "\x7f", "<S>", "a<S>", "x" * 300, "nope", "*", "a.LIQUID",
 ]
 SEPS = ["/", "/", "/", "//", "\\", "/./", "\uff0f", "\u2215", "\u2044"]  # the last three only look like a slash (NFKC folds U+FF0F into one)
 # "/<T>/..." expands to a name with two leading slashes, which POSIX pathlib keeps as the separate root "//"
@@ -328,6 +331,7 @@ def gen_name(rng) -> str:
 BASIC = ["\u2025/outside/secret.liquid", "\uff0e\uff0e/outside/secret.liquid", "\uff0e\uff0e\uff0foutside\uff0fsecret.liquid", "\uff0f<T>/outside/secret.liquid", "sub/\u2025/\u2025/outside/secret.liquid",
          "\uff41.liquid", "ａ", "sub\uff0fb.liquid", "sub/../a.liquid", "nope/../a.liquid", "./a.liquid", "sub/./b.liquid", "sub//b.liquid", "a.liquid/", "sub/../sub/b.liquid", "nope/../sub/b", "./both", "sub/deep/../../a",
          "a.liquid", "a", "sub/b.liquid", "sub/b", "sub/deep/c.txt", "noext", "both", "d", "d.liquid", "link_in.liquid", "link_out.liquid", "linkdir/secret.liquid", "link_r2.liquid",
+         "link_x.liquid", "link_x", "linkdir_x/z.liquid", "linkdir_x/z", "linkdir_x/a", "link_sib.liquid", "link_sib", "sub/linkdir_old/o.liquid", "sub/linkdir_old/o", "abs_link_x.liquid", "abs_link_x",
          "sub/up/outside/secret.liquid", "abs_out.liquid", "../outside/secret.liquid", "<T>/outside/secret.liquid", "<T>/root1/a.liquid", "<T>/pkgs/vpkg22/secret.liquid",
          "/<T>/outside/secret.liquid", "//<T>/outside/secret.liquid", "/<T>/pkgs/vpkg22/secret.liquid", "/<T>/root1/a.liquid", "/<T>/outside/secret",
          "../secret.liquid", "../secret", "m", "c.txt", "sub/../a.liquid", "", ".", "/", "x" * 300, "sub/" + "y" * 5000, "\x00", "<S>", "dangling.liquid", "loop.liquid", "é", "sp ace"]
